@@ -191,7 +191,7 @@ def run_e1(prop, pool, verdict, tier, seed):
     """Proof part: all contracted functions tagged with the property."""
     import contracts  # noqa
     from pyvc.contract import REGISTRY
-    quals = [q for q, c in REGISTRY.items() if prop in c.properties and not c.trusted]
+    quals = [q for q, c in REGISTRY.items() if prop in c.properties and not c.trusted and c.e1]
     ledger = load_ledger()
     t0 = time.time()
     results = pool.map(e1_task, quals, chunksize=1)
@@ -324,7 +324,7 @@ def main():
         import contracts  # noqa
         from pyvc.contract import REGISTRY
         with mp.Pool(min(16, os.cpu_count() or 1)) as pool:
-            res = pool.map(e1_task, [q for q, c in REGISTRY.items() if not c.trusted], chunksize=1)
+            res = pool.map(e1_task, [q for q, c in REGISTRY.items() if not c.trusted and c.e1], chunksize=1)
         led = {}
         for r in res:
             led[r['qual']] = {o['name']: o['verdict'] for o in r['obligations']}
